@@ -54,11 +54,15 @@ def build(env, d, case):
     md = ({'a': 1} if case['md'] == 'one' else {'a': 1, 'b': [2]}) if case['md'] else None
     origin, st = case['origin'], case['state']
     cmode = 'r' if origin in ('at_creation', 'create_func') else 'r+'
+    # the numeric type / byte order rotates with the cell (an empty array is represented by an in-memory stand-in
+    # whose type handling differs from that of a memory map)
+    import zlib
+    adt = ['int32', '>i4', '>f8', '<c8', 'uint8', '>f2'][zlib.crc32(repr(sorted(case.items(), key=str)).encode()) % 6]
     if case['kind'] == 'Array':
         shape = {'empty1d': (0,), 'empty2d': (0, 2), 'nonempty1d': (4,), 'nonempty2d': (3, 2)}[st]
-        data = (np.arange(int(np.prod(shape)), dtype='int32') + 1).reshape(shape)
+        data = (np.arange(int(np.prod(shape)), dtype='int32') + 1).reshape(shape).astype(adt)
         if origin == 'create_func':
-            h = D.create_array(p, shape=shape, dtype='int32', fill=1, accessmode=cmode, metadata=md, chunklen=2)
+            h = D.create_array(p, shape=shape, dtype=adt, fill=1, accessmode=cmode, metadata=md, chunklen=2)
         else:
             h = D.asarray(p, data, accessmode=cmode, metadata=md, chunklen=2)
         opener = D.Array
@@ -168,14 +172,14 @@ def call(env, h, case):
         if ragged:
             h.append(np.ones((2,) + tuple(h.atom), dtype='int32'))
         else:
-            h.append(np.ones((1,) + tuple(h.shape[1:]), dtype='int32'))
+            h.append(np.ones((1,) + tuple(h.shape[1:]), dtype=h.dtype))
     elif op == 'append_empty':
         h.append(np.ones((0,) + tuple(h.atom), dtype='int32'))
     elif op == 'iterappend':
         if ragged:
             h.iterappend([np.ones((1,) + tuple(h.atom), dtype='int32'), np.ones((0,) + tuple(h.atom), dtype='int32')])
         else:
-            h.iterappend([np.ones((1,) + tuple(h.shape[1:]), dtype='int32')] * 2)
+            h.iterappend([np.ones((1,) + tuple(h.shape[1:]), dtype=h.dtype)] * 2)
     elif op == 'iterappend_empty':
         h.iterappend([])
     elif op == 'truncate':
